@@ -2,7 +2,7 @@
 # scripts/mut_job2.sh <ID> <X> <tier> <check IDs...> : quick confirmation (demo both ways + build, no full suite) + evaluation
 cd "$(dirname "$0")/.."
 id="$1"; x="$2"; tier="$3"; shift 3
-case "$x" in A|B) d="/tmp/mut/$id.out/$x";; C) d="/tmp/mut/$id.out2/A";; D) d="/tmp/mut/$id.out2/B";; E) d="/tmp/mut/$id.out3/A";; F) d="/tmp/mut/$id.out3/B";; G) d="/tmp/mut/$id.out4/A";; H) d="/tmp/mut/$id.out4/B";; I) d="/tmp/mut/$id.out5/A";; J) d="/tmp/mut/$id.out5/B";; esac
+case "$x" in A|B) d="/tmp/mut/$id.out/$x";; C) d="/tmp/mut/$id.out2/A";; D) d="/tmp/mut/$id.out2/B";; E) d="/tmp/mut/$id.out3/A";; F) d="/tmp/mut/$id.out3/B";; G) d="/tmp/mut/$id.out4/A";; H) d="/tmp/mut/$id.out4/B";; I) d="/tmp/mut/$id.out5/A";; J) d="/tmp/mut/$id.out5/B";; K) d="/tmp/mut/$id.out6/A";; L) d="/tmp/mut/$id.out6/B";; esac
 mkdir -p .build/mut
 {
   echo "=== $id$x $(jq -r .title $d/meta.json 2>/dev/null)"
